@@ -83,7 +83,10 @@ JudgeHostile(e) ==
               ELSE "err:TruncatedDegreeTooLarge"
       bound == C!AllocBound(max, Slack) + (IF e.res = "ok" THEN e.direct_peak ELSE 0)
       work == C!WorkBounded(d.work, max)
-      good == pred = e.res /\ e.peak <= bound /\ work
+      \* a container with bytes after the stream: as the code reads it (pred), or
+      \* rejected as the property asks (what a repaired decoder does)
+      asked == e.container.tail # 0 /\ e.res = "err:InvalidCompressedCircuit"
+      good == (pred = e.res \/ asked) /\ e.peak <= bound /\ work
       finding == e.res = "ok" /\ e.container.tail # 0
   IN /\ IF good
         THEN PrintT("VERDICT|" \o ToString(l) \o "|hostile|" \o e.class \o "|" \o pred)
